@@ -13,9 +13,12 @@ theorem v0_reapMaxTxs_loop : Facts.mempoolV0_reapMaxTxs_loop = "e != nil && len(
 theorem v0_isFull : Facts.mempoolV0_isFull =
     "memSize >= mem.config.Size || int64(txSize)+txsBytes > mem.config.MaxTxsBytes" := by decide
 
-/-- v0 `resCbFirstTime`: full-check, then the already-in-pool guard, then `addTx`
-(model: `V0.resCbFirstTime`); without the guard `v0_no_duplicates` is false of the code. -/
-theorem v0_admit_order : Facts.mempoolV0_admit_order = ["mem.isFull", "mem.txsMap.Load", "mem.addTx"] := by
+/-- v0 `resCbFirstTime`: the critical section is entered FIRST, then the capacity check, the
+already-in-pool guard and `addTx` (model: `V0.resCbFirstTime` as one atomic step); a capacity check
+outside the lock lets concurrent callers exceed the limits, without the guard `v0_no_duplicates` is
+false of the code. -/
+theorem v0_admit_order : Facts.mempoolV0_admit_order =
+    ["mem.addTxMtx.Lock", "mem.isFull", "mem.txsMap.Load", "mem.addTx"] := by
   decide
 theorem v0_inpool_guard : Facts.mempoolV0_inpool_guard = true := by decide
 
